@@ -85,7 +85,7 @@ manifest = {
    {"name": "acc14", "path": "/verif/harness/src/acc14.rs", "serves_properties": ["C14"], "kind_free_text": "accessor call histories vs value/liveness model, probe reactors"},
    {"name": "sys17", "path": "/verif/harness/src/sys17.rs", "serves_properties": ["C17"], "kind_free_text": "syscall-family call histories vs key->count model"},
    {"name": "rc10", "path": "/verif/harness/src/rc10.rs", "serves_properties": ["C10"], "kind_free_text": "auto-despawn signal histories (with worker threads) vs reference-count model"},
-   {"name": "wr16", "path": "/verif/harness/src/wr16.rs", "serves_properties": ["C16"], "kind_free_text": "world reactor / entity world reactor histories vs key-table model"},
+   {"name": "wr16", "path": "/verif/harness/src/wr16.rs", "serves_properties": ["C16"], "kind_free_text": "world reactor / entity world reactor histories vs key-table model; also the side engine of the C01 and C06 checks (one case in eight, run-set oracle only)"},
    {"name": "tree", "path": "/verif/harness/src/{program,exec,model,tree}.rs", "serves_properties": sorted(TREE.keys()),
     "kind_free_text": "generated world-mode programs over a small closed universe, executed against the real crate; one totally ordered trace of harness markers + hook events; reference model rebuilt from applied ops/facts; per-property oracles"},
  ],
